@@ -1,6 +1,8 @@
 package vc
 
 import (
+	"regexp"
+	"go/types"
 	"encoding/json"
 	"fmt"
 	"os"
@@ -196,21 +198,68 @@ func RunCheck(o CheckOpts) int {
 	}
 	os.RemoveAll(outDir)
 	srs := SolveAll(g, header, results, outDir, o.Par, timeout, o.Tier == "thorough")
+	for _, r := range results {
+		// assumptions registered while the per-function headers were assembled (instance axioms about literals)
+		for _, a := range r.Assumed {
+			assumptions[a] = true
+		}
+	}
 	// static checks
 	staticRes := g.RunStatic(o, spec)
 	// recorded weakenings of the deepcopy predicate are findings, not silent exceptions
 	usesDeepcopy := map[string]bool{} // packages with a deepcopy postcondition among this property's functions
+	copied := map[string]bool{}       // named struct types (pkg.Name) reachable from the values those functions copy
 	for _, k := range keys {
 		for _, en := range g.CS.Funcs[k].Ensures {
 			if strings.Contains(en.Text, "deepcopy(") {
 				usesDeepcopy[g.CS.Funcs[k].Pkg] = true
+				if fn := g.FuncByKey(k); fn != nil {
+					// the values named in deepcopy(a, b): results and parameters by name; anything else
+					// (an expression) falls back to every parameter and result of the function
+					res := fn.Signature.Results()
+					all := false
+					for _, m := range deepcopyArgRe.FindAllStringSubmatch(en.Text, -1) {
+						for _, a := range m[1:] {
+							a = strings.TrimSpace(a)
+							found := false
+							if strings.HasPrefix(a, "result") {
+								for i := 0; i < res.Len(); i++ {
+									reachableStructs(res.At(i).Type(), copied)
+								}
+								found = true
+							}
+							for _, p := range fn.Params {
+								if p.Name() == a {
+									reachableStructs(p.Type(), copied)
+									found = true
+								}
+							}
+							if !found {
+								all = true
+							}
+						}
+					}
+					if all {
+						for _, p := range fn.Params {
+							reachableStructs(p.Type(), copied)
+						}
+						for i := 0; i < res.Len(); i++ {
+							reachableStructs(res.At(i).Type(), copied)
+						}
+					}
+				}
 			}
 		}
 	}
 	if len(usesDeepcopy) > 0 {
 		var sk []string
 		for k := range g.CS.Shared {
-			if usesDeepcopy[g.CS.SharedPkg[k]] {
+			// a shared field T.f weakens only the copies of values that contain a T
+			tn := k
+			if i := strings.Index(k, "."); i >= 0 {
+				tn = k[:i]
+			}
+			if usesDeepcopy[g.CS.SharedPkg[k]] && copied[g.CS.SharedPkg[k]+"."+tn] {
 				sk = append(sk, k)
 			}
 		}
@@ -477,4 +526,35 @@ func (g *Gen) CoverChecks(header string, results []*FnResult, outDir string, par
 		<-done
 	}
 	return out
+}
+
+var deepcopyArgRe = regexp.MustCompile(`deepcopy\(([^,()]+),([^,()]+)\)`)
+
+// reachableStructs adds the named struct types reachable from t (through pointers, slices, arrays, maps and
+// struct fields) to out, keyed "pkgname.TypeName".
+func reachableStructs(t types.Type, out map[string]bool) {
+	switch u := t.(type) {
+	case *types.Named:
+		if _, ok := u.Underlying().(*types.Struct); ok && u.Obj().Pkg() != nil {
+			k := u.Obj().Pkg().Name() + "." + u.Obj().Name()
+			if out[k] {
+				return
+			}
+			out[k] = true
+		}
+		reachableStructs(u.Underlying(), out)
+	case *types.Pointer:
+		reachableStructs(u.Elem(), out)
+	case *types.Slice:
+		reachableStructs(u.Elem(), out)
+	case *types.Array:
+		reachableStructs(u.Elem(), out)
+	case *types.Map:
+		reachableStructs(u.Key(), out)
+		reachableStructs(u.Elem(), out)
+	case *types.Struct:
+		for i := 0; i < u.NumFields(); i++ {
+			reachableStructs(u.Field(i).Type(), out)
+		}
+	}
 }
